@@ -1,9 +1,12 @@
 package rules
 
 import (
+	"go/token"
 	"go/types"
 
 	"golang.org/x/tools/go/ssa"
+
+	"kgv/internal/eng"
 )
 
 // short aliases used by the census code
@@ -26,4 +29,39 @@ func mutexField(n *types.Named) string {
 		}
 	}
 	return ""
+}
+
+// nonNilSuccs returns, for every If of fn comparing a value selected by isV with nil, the
+// successor taken when the value is non-nil.
+func nonNilSuccs(fn *ssa.Function, isV func(ssa.Value) bool) []*ssa.BasicBlock {
+	var out []*ssa.BasicBlock
+	for _, b := range fn.Blocks {
+		if len(b.Instrs) == 0 {
+			continue
+		}
+		iff, ok := b.Instrs[len(b.Instrs)-1].(*ssa.If)
+		if !ok {
+			continue
+		}
+		r := eng.RelOf(iff.Cond, true)
+		var other ssa.Value
+		switch {
+		case isV(r.X):
+			other = r.Y
+		case isV(r.Y):
+			other = r.X
+		default:
+			continue
+		}
+		if !eng.IsNilConst(other) {
+			continue
+		}
+		switch r.Op {
+		case token.NEQ:
+			out = append(out, b.Succs[0])
+		case token.EQL:
+			out = append(out, b.Succs[1])
+		}
+	}
+	return out
 }
